@@ -1521,7 +1521,13 @@ pub fn oracle_c11(ctx: &Ctx, out: &mut Out, s: &Subject, rng: &mut Rng) {
                     continue;
                 }
                 if !weaker_or_equal(&r1, &fresh[gi]) {
-                    fail_once(out, &mut seen, &format!("{}: interrupted solve of `{}` (callback false: {}) answers {} but the full answer is {}", name, low.goals[gi].0, sname, render(&r1), render(&fresh[gi])), &input(""), &(if name != "slg" && is_mixed(s) { "recursive_mixed_cycle_cached".to_string() } else { format!("{}_interrupted_answer_contradicts", if name == "slg" { "slg" } else { "recursive" }) }));
+                    fail_once(out, &mut seen, &format!("{}: interrupted solve of `{}` (callback false: {}) answers {} but the full answer is {}", name, low.goals[gi].0, sname, render(&r1), render(&fresh[gi])), &input(""), &(if name != "slg" && is_mixed(s) { "recursive_mixed_cycle_cached".to_string() } else if name != "slg" && matches!((&r1, &fresh[gi]), (Ok(Some(Solution::Unique(_))), Ok(Some(Solution::Ambig(_))))) {
+                        // F37: the interrupted run is MORE precise than the full one (a `Unique` where the
+                        // uninterrupted iteration settles for `Ambiguous`): no contradiction, but not "the full
+                        // answer or a weaker one" either — the precision of the recursive solver's ambiguous
+                        // answers depends on the course of the iteration (F28)
+                        "recursive_interrupted_answer_more_precise".to_string()
+                    } else { format!("{}_interrupted_answer_contradicts", if name == "slg" { "slg" } else { "recursive" }) }));
                 }
                 // a second limited solve, then full solves on the same instance
                 let r2 = limited(&mut *solver, g, &[true, false], rng.chance(1, 2));
